@@ -164,7 +164,7 @@ def u64_of(x):
 
 # ----------------------------------------------------------------- programs
 
-WGSL_TY = {"i32": "i32", "u32": "u32", "bool": "bool", "f32": "f32"}
+WGSL_TY = {"i32": "i32", "u32": "u32", "bool": "bool", "f32": "f32", "f16": "f16"}
 
 
 class Case:
@@ -237,7 +237,7 @@ def build_program(cases):
        Returns the source."""
     tys = sorted({c.ty for c in cases if c.pos in FN_POS + MOD_POS})
     n = len(cases)
-    head = ["@group(0) @binding(0) var<storage, read_write> rt: array<u32, 8>;"]
+    head = (["enable f16;"] if "f16" in tys else []) + ["@group(0) @binding(0) var<storage, read_write> rt: array<u32, 8>;"]
     for t in tys:
         head.append("var<private> p_%s: array<%s, %d>;" % (t, WGSL_TY[t], n + 1))
     body = []
